@@ -495,8 +495,12 @@ def transfer_cases(gen: dict, rng: random.Random, quick: bool) -> list[dict]:
         lst = gen[kind]
         for c in lst:
             named = len(cases) % 4 == 1   # every fourth case asks with ids that carry display names
-            first = xfer_op(c, named=named)
-            retry = xfer_op(c, F=[], named=named)
+            extra = {}
+            if c["shallow"] and not c["idx"] and len(cases) % 4 == 2:
+                # ... and every fourth shallow one is asked through a data index (dvc_data.index.push / fetch)
+                extra = {"via": "index", "entries": ("lazy", "explicit")[len(cases) % 8 // 4]}
+            first = xfer_op(c, named=named, **extra)
+            retry = xfer_op(c, F=[], named=named, **extra)
             useed = len(cases) % 3  # vary the concrete contents, hence the code's own iteration orders
             # every fifth case runs on stores of the legacy algorithm (both sides, as a DVC 2.x cache and remote are)
             alg = "md5-dos2unix" if len(cases) % 5 == 3 else "md5"
@@ -504,7 +508,7 @@ def transfer_cases(gen: dict, rng: random.Random, quick: bool) -> list[dict]:
             nmax = len(c["req"]) + 2
             ks = range(nmax) if (not quick or rng.random() < 0.34) else []
             for k in ks:
-                cases.append({"init": c["init"], "ops": [xfer_op(c, abort=k, named=named), retry], "kind": kind + "-abort",
+                cases.append({"init": c["init"], "ops": [xfer_op(c, abort=k, named=named, **extra), retry], "kind": kind + "-abort",
                               "useed": useed, "alg": alg})
     return cases
 
